@@ -1,7 +1,8 @@
 """C03 — PASS means no admissible input violates the test (end to end).
 
-Obligations: translators T-panic (CallOutput.is_panic_of) and T-runtest (run_test / setup /
-run_target_function decision logic), Props/C03.vo (theorems over the regenerated Gen files), lint.
+Obligations: translators T-panic (CallOutput.is_panic_of), T-runtest (run_test / setup /
+run_target_function decision logic), T-copies (what Path.branch & co copy) and T-refine (the rules of
+solve.refine), Props/C03.vo (theorems over the regenerated Gen files), lint.
 Ties:
   L1  real CallOutput.is_panic_of / is_global_fail_set / CallContext.is_stuck vs the extracted model
       vs an independent python rendering of the spec (byte strings around the Panic encoding,
@@ -21,7 +22,7 @@ from harness import common, l3, pool
 from harness.common import Model
 
 PID = "C03"
-TRANSLATORS = ["T-panic", "T-runtest"]
+TRANSLATORS = ["T-panic", "T-runtest", "T-copies", "T-refine"]
 
 # Genuine defects of halmos w.r.t. C03 shown by this check on the unchanged tree (see final report).
 KNOWN = common.known_for("C03")  # entries live in /verif/known_findings.json
@@ -276,6 +277,17 @@ def gen_l3_tasks(r, tier):
         opts += [[], ["--solver", "z3"], ["--storage-layout", "generic"], ["--solver", "z3", "--storage-layout", "generic"]][(i // 2) % 4]
         opts += ["--solver-timeout-assertion", "15s"]   # a [TIMEOUT] verdict is not a PASS; keeps hard mul/div queries bounded
         tasks.append({"desc": d, "options": opts, "code_opt": co, "seed": r.getrandbits(32), "family": "grammar", "limit": 100 if tier == "quick" else 200, "timeout": 200})
+    # directed families (c03_lib): a word re-read after a sibling branch pinned it, combinations of lengths of several
+    # dynamic parameters, special-case points of arithmetic operations reached through symbolic operands
+    grid = [(i, j, (i + j) % 3) for i in range(3) for j in range(3)]
+    if tier == "quick":
+        plans = [(None, [], [(1, 2, 1), (0, 1, 2)]), ("0x01", ["--solver", "z3"], [(1, 1, 0), grid[r.randrange(9)]])]
+    else:
+        plans = [(L.CODE_OPTIONS[k % len(L.CODE_OPTIONS)], [[], ["--solver", "z3"], ["--storage-layout", "generic"]][k % 3], grid[3 * (k % 3):3 * (k % 3) + 3]) for k in range(9)]
+    for co, extra, combos in plans:
+        d = L.gen_directed_contract(r, co, n_each=2 if tier == "quick" else 4, combos=combos)
+        tasks.append({"desc": d, "options": (["--panic-error-codes", co] if co else []) + extra + ["--solver-timeout-assertion", "15s"], "code_opt": co,
+                      "seed": r.getrandbits(32), "family": "directed", "limit": 100 if tier == "quick" else 200, "timeout": 200})
     for d, co, fam in special_contracts():
         for extra in ([], ["--solver", "z3"]) if tier != "quick" else ([],):
             tasks.append({"desc": d, "options": (["--panic-error-codes", co] if co else []) + extra, "code_opt": co, "seed": 1, "family": fam, "limit": 60})
@@ -356,7 +368,7 @@ def l3_tie(rep, m, tier, r):
                               sig={"kind": "clean-pass-with-violation", "family": fam, "outcome": v["outcome"].split(":")[0], "actions": sorted({a[0] for _, a in t["clauses"]})})
                 continue
             # model side: the extracted run_test on the predicted leaves must give halmos' exit code
-            if m is not None and status != "TIMEOUT" and "exitcode" in rec and task["family"] == "grammar":
+            if m is not None and status != "TIMEOUT" and "exitcode" in rec and task["family"] in ("grammar", "directed"):
                 mc = predicted_model_call(t, val["cands"][sig].get("feas"), codes)
                 if mc is not None:
                     calls.append(mc)
@@ -388,11 +400,11 @@ def run(rep, tier):
     rep.coverage["traces_validated_against_impl"] = n1 + n3
     rep.coverage["known_findings_declared"] = [k["id"] for k in KNOWN]
     return rep.finish(
-        checker_cmd="make -C coq Props/C03.vo (coq_makefile, coqc 8.16.1) after regenerating coq/Gen/GenPanic.v from src/halmos/sevm.py and coq/Gen/GenRunTest.v from src/halmos/__main__.py",
+        checker_cmd="make -C coq Props/C03.vo (coq_makefile, coqc 8.16.1) after regenerating coq/Gen/GenPanic.v and GenCopies.v from src/halmos/sevm.py, GenRunTest.v from src/halmos/__main__.py and GenRefine.v from src/halmos/solve.py",
         trusted_base=common.TRUSTED_BASE_COMMON + ["the fabricated forge artifacts + stub forge (harness/l3.py) and the extracted reference interpreter coq/Spec/Evm.v as EVM oracle"],
         assumptions=ASSUMPTIONS,
         rule="L1 cases = (error kind, revert data as concrete/symbolic segments, code set): every length 0..40 of the Panic(1) encoding, one-bit/one-byte selector damage, 14 codes x 7 code sets, a symbolic segment at every offset, random byte strings; random call trees for is_global_fail_set. "
-             "L3 cases = (test function description, setUp storage, halmos options): tests `if (g) action; ...; STOP` with g from {eq const, lt/gt, add/sub/mul/xor/and/or relations, mul/div/mod/sdiv/smod, shifts, signed compares, bit tests, storage written by setUp, dynamic length guards, element/word guards} over static and dynamic parameters, actions {Panic(k) inside/outside the configured set, 35/37/68-byte near-panics, other selectors, DSTest.fail, revert, INVALID}; options: panic code sets x solver {yices, z3} x storage layout; "
+             "L3 cases = (test function description, setUp storage, halmos options): tests `if (g) action; ...; STOP` with g from {eq const, lt/gt, add/sub/mul/xor/and/or relations, mul/div/mod/sdiv/smod, shifts, signed compares, bit tests, storage written by setUp, dynamic length guards, element/word guards} over static and dynamic parameters, actions {Panic(k) inside/outside the configured set, 35/37/68-byte near-panics, other selectors, DSTest.fail, revert, INVALID}; options: panic code sets x solver {yices, z3} x storage layout; directed families: a calldata word / array element pinned by `== c` on a benign branch and read again on the sibling branch where the failure needs another value; tests with 2-3 dynamic parameters whose failure needs one combination of their lengths (all 9 index combinations in the thorough tier); failures at the special-case points of div / mod / sdiv / smod (zero divisor, MIN / -1) and of a wrapping mul, with symbolic operands; "
              "non-trivial = the oracle executed at least one candidate input on the reference interpreter; distinct by hash of (test, setUp, options)",
         partial="the theorem is a composition over named hypotheses (C01/C02/C11/C16/C04 are proved and tied by their own properties); the oracle can only exhibit violations among its candidates (z3 models of the guard + boundary set), it does not prove their absence",
     )
